@@ -661,6 +661,20 @@ int32 dtlsChkReplayWindow(ssl_t *ssl, unsigned char *seq64)
     lastSeq = ((uint32_t) ls64[2] << 24) + ((uint32_t) ls64[3] << 16) +
               ((uint32_t) ls64[4] << 8) + (uint32_t) ls64[5];
 
+    if (dtlsCompareEpoch(ssl->rec.epoch, ssl->rsnWindowEpoch) > 0 &&
+        dtlsCompareEpoch(ssl->rec.epoch, ssl->expectedEpoch) >= 0)
+    {
+        /* First record accepted in a newer epoch than the one the window
+           belongs to (sequence numbers restart with every epoch): start a
+           new window at this record.  A second copy of it finds the window
+           in its own epoch and is a duplicate. */
+        ssl->dtlsBitmap = 1;
+        Memcpy(ssl->lastRsn, seq64, 6);
+        ssl->rsnWindowEpoch[0] = ssl->rec.epoch[0];
+        ssl->rsnWindowEpoch[1] = ssl->rec.epoch[1];
+        return 1;
+    }
+
     if (seq == 0)
     {
         /* Need to differentiate between initial, duplicate, and epoch shift */
@@ -669,12 +683,9 @@ int32 dtlsChkReplayWindow(ssl_t *ssl, unsigned char *seq64)
             ssl->dtlsBitmap = 0;
             return 1; /* initial one */
         }
-        if (dtlsCompareEpoch(ssl->rec.epoch, ssl->expectedEpoch) >= 0 &&
-            lastSeq > 0)
-        {
-            ssl->dtlsBitmap = 0;
-            return 1; /* epoch shift */
-        }
+        /* (an epoch shift is handled above: a record with sequence number
+           0 in the epoch of the window is the initial one, a wrap, or a
+           duplicate) */
         if (lastSeq == 0xFFFFFFF)
         {
             ssl->dtlsBitmap = 0;
